@@ -24,6 +24,7 @@ func init() {
 		Quick:    Tier{Params: map[string]int{"exts": 1, "extras": 1, "name_len": 1, "sizes": 1, "any_shapes": 2, "vary": 0, "props": 2, "ref_len": 3}},
 		Thorough: Tier{Params: map[string]int{"exts": 2, "extras": 1, "name_len": 1, "sizes": 1, "any_shapes": 2, "vary": 1, "vary_points": 60, "vary_alts": 4, "props": 2, "ref_len": 4}},
 		Bounds: []string{
+			"every vendor extension held by a decoded model is a member of the encoder output under exactly its own name (extension names over the C01 name alphabet, upper case included)",
 			"vh_C06_nodup_<Kind>: values decoded from the symbolic normal-form documents of C01 (presence of every keyword symbolic); output must be valid JSON without repeated member names",
 			"vh_C06_builders: values built by AddExtension x2 (keys x-/X- + symbolic byte), SetProperty x2, RespondsWith x2 + default, AddHeader x2, AddExample",
 			"vh_C06_order: schema with 2..props properties, names one symbolic byte each (distinct), x-order absent / float64 in {0,1,2} / digit string in {0,1,2} / non-numeric string; encoded twice with every map iteration order explored independently (symbolic permutations); byte equality and (has x-order, x-order, name) order asserted",
@@ -50,6 +51,7 @@ func init() {
 		Quick:    Tier{Params: map[string]int{"exts": 1, "extras": 1, "name_len": 1, "sizes": 1, "any_shapes": 2, "vary": 0, "case_twin": 1}},
 		Thorough: Tier{Params: map[string]int{"exts": 2, "extras": 1, "name_len": 1, "sizes": 1, "any_shapes": 2, "vary": 1, "vary_points": 60, "vary_alts": 4, "case_twin": 1}},
 		Bounds: []string{
+			"a second pointer step (description, type, name, $ref) on the Go value the first step returned, compared with the JSON form",
 			"per kind: the symbolic normal-form document of C01 is decoded; for every keyword of the kind and every symbolic member name (extension, its case twin, unknown keyword) used as a one-token pointer, jsonpointer.GetForToken on the typed value (real JSONLookup + name provider from SSA, M-reflect) is compared with the member of the value's own JSON encoding",
 			"responses: tokens default, 200, 404, 099, 600, 99",
 			"asserted direction: the JSON form has the member => the typed lookup succeeds with an equal value (a typed lookup that yields a zero value for an absent optional member is not an error)",
@@ -78,7 +80,10 @@ func init() {
 		Bounds: []string{
 			"schemas family: three documents (root with definitions A,B and a leaf named a; sub/a.json with \"C d\"; a third document with D in another directory tree), either all file: URLs or http URLs with the third document on another port of the same host; each of A,B,C holds, at a keyword position chosen among kwpos of {properties, items, tuple items, allOf, anyOf, oneOf, not, additionalProperties, additionalItems, patternProperties, dependencies, definitions}, either nothing or a $ref to one of A,B,C,D (in one of `spellings` spellings), to the whole document sub/a.json, or to a pointer below a definition (fragment-only / relative path with ../ / absolute URL); all combinations explored (every cycle topology over these nodes arises); property name needs ~0/~1 escaping",
 			"chains family: root parameters/responses/path item that reference (or not) parameters/responses/path items of two other documents, second hops local to those documents or back into the root; same names with different content in different documents so that a wrong-document resolution changes the meaning",
+			"imports family: four documents in four directories; a path item imported from another directory whose path-level parameter, operation parameter, 200 and default responses hold (3 alternatives each) a sibling-file reference, a fragment-only reference, an inline element with a relative schema reference, or a back reference into the root; parameter and response chains root -> sub -> deep -> far (each hop inline or a relative reference); three modes (parameter side, response side, all four members of the imported item at once)", "ops family: one document, a path item with all seven methods each with a referenced parameter and response, a path-level parameter, an operation without a responses object",
+			"every definition carries an x-leaf object; targets include a pointer to the x-leaf of a definition of another document",
 			"AbsoluteCircularRef symbolic; iteration order of every map of the object model (definitions, properties, parameters, responses, paths) is a symbolic permutation in the schemas family",
+			"loader oracle: whatever the outcome, every URL asked of the loader is the RFC 3986 target of some $ref of the world read from the document that contains it",
 			"oracle (harness Go code, executed by the same engine, natively on replay): coinductive comparison of the unfoldings of input and output root documents, following $refs with net/url ResolveReference against the URL of the containing document and RFC 6901 evaluation on generic JSON",
 		},
 		Outside:     []string{"more documents / definitions / slots, several slots per definition, schemas with id (C04), YAML, Windows paths, byte-level URL arithmetic for arbitrary strings (C11/C12)"},
@@ -93,6 +98,8 @@ func init() {
 			"schemas family: three documents (root with definitions A,B and a leaf named a; sub/a.json with \"C d\"; a third document with D in another directory tree), either all file: URLs or http URLs with the third document on another port of the same host; each of A,B,C holds, at a keyword position chosen among kwpos of {properties, items, tuple items, allOf, anyOf, oneOf, not, additionalProperties, additionalItems, patternProperties, dependencies, definitions}, either nothing or a $ref to one of A,B,C,D (in one of `spellings` spellings), to the whole document sub/a.json, or to a pointer below a definition (fragment-only / relative path with ../ / absolute URL); all combinations explored (every cycle topology over these nodes arises); property name needs ~0/~1 escaping",
 			"chains family: root parameters/responses/path item that reference (or not) parameters/responses/path items of two other documents, second hops local to those documents or back into the root; same names with different content in different documents so that a wrong-document resolution changes the meaning",
 			"AbsoluteCircularRef symbolic; iteration order of every map of the object model (definitions, properties, parameters, responses, paths) is a symbolic permutation in the schemas family",
+			"imports family: four documents in four directories; a path item imported from another directory whose path-level parameter, operation parameter, 200 and default responses hold (3 alternatives each) a sibling-file reference, a fragment-only reference, an inline element with a relative schema reference, or a back reference into the root; parameter and response chains root -> sub -> deep -> far (each hop inline or a relative reference); three modes (parameter side, response side, all four members of the imported item at once)", "ops family: one document, a path item with all seven methods each with a referenced parameter and response, a path-level parameter, an operation without a responses object",
+			"local document: a single in-memory root expanded with nil options or options without RelativeBase (remaining $refs read as pointers into the document)", "targets include a pointer to the x-leaf object inside a definition of another document",
 			"oracle: cycle analysis of the input reference graph on generic JSON (a node is on a cycle iff some chain of references from it reaches it or a container of it); every $ref of the output must resolve from the root location to such a node, have the absolute / root-relative form the option prescribes; acyclic inputs must come out $ref-free and identical under a second, independently ordered expansion",
 		},
 		Outside:     []string{"as C02"},
@@ -118,6 +125,7 @@ func init() {
 		Thorough: Tier{Params: map[string]int{"kwpos": 12, "spellings": 3}},
 		Bounds: []string{
 			"worlds: root definitions A (slot: reference to B, to C in a sub-directory document, to D in a third document, to a missing pointer, a missing document, a string / number / array / boolean target, or nothing), B (slot: C or nothing), a root response whose schema refers to A; C (slot: a pointer missing in its own document, D, back to B, or nothing)",
+			"deep: every one of the 12 keyword positions with a good / dangling / missing-document / non-object reference one level below it", "ops: the ops family (C02) where the parameter reference of the operation without responses may dangle or name a missing document",
 			"loader failure bits for the two non-root documents and ContinueOnError are symbolic (decided lazily, per path, by the solver)",
 			"oracle: strict mode - error iff the unfolding of the root runs into a $ref that does not resolve to an object; continue mode - no error, and the output is bisimilar to the input where an unresolvable $ref must be the same text on both sides",
 		},
@@ -130,6 +138,7 @@ func init() {
 		Quick:    Tier{Params: map[string]int{"kwpos": 2, "spellings": 2}},
 		Thorough: Tier{Params: map[string]int{"kwpos": 12, "spellings": 3}},
 		Bounds: []string{
+			"id scope (vh_C18_idscope): a sub-schema with a relative / absolute / folder id, inner references fragment-only, to a sibling document, or to the id's own URL; no cache, fresh cache, reused cache",
 			"worlds: root definitions A,B and a sub-directory definition C with reference slots (targets A,B,C,D; cross-document cycles included), a third document with D",
 			"cache states: none (reference run), fresh empty cache, cache pre-loaded with a symbolic subset of the three documents (one solver bit per document), cache reused from an expansion of definition B of the same root; entry point ExpandSchemaWithBasePath on definition A",
 			"observed: result bytes, success, loader call log (each URL at most once per expansion, pre-loaded URLs never)",
@@ -157,6 +166,7 @@ func init() {
 		Thorough: Tier{Params: map[string]int{"spellings": 3}},
 		Bounds: []string{
 			"worlds: a root whose parameter, response and one path item are imported from two other documents (plain directories, or a sibling directory whose name starts with the name of the root's directory plus a deeper directory); the schemas of the imported parameter / response / operation point (symbolically chosen, 2/3 spellings) back to the root, to their own document, to the third document, or nowhere",
+			"also on the imports family (3 modes) and the ops family of C02",
 			"checks: no $ref at parameter/response/path-item level, definitions byte-identical, every kept schema $ref resolves from the root location (fragment-only into the root), bisimulation with the input, and ExpandSpec(full) of the result with the same options value equals the direct full expansion",
 		},
 		Outside:     []string{"cycles under skip-schemas", "more imports"},
@@ -182,6 +192,7 @@ func init() {
 		Quick:    Tier{Params: map[string]int{"name_len": 2}},
 		Thorough: Tier{Params: map[string]int{"name_len": 3}},
 		Bounds: []string{
+			"name alphabet / ~ % # ? { } space a 0 1 e-acute; the element lives in the root, in a sibling document, or in a document whose absolute URL carries a query (documents differing by the query only hold other contents)",
 			"two documents (root, sub/a.json); the element name is 1..name_len symbolic bytes over {/ ~ % # ? { } space a 0xC3 0xA9}; kinds: definition, parameter, response, path item (/name), schema under the mixed-case root extension x-Shared-Models; target in the root or in the other document; existing element or a missing sibling name; root supplied typed, generic, or by location only; ContinueOnError symbolic",
 			"the reference text is built by the oracle: [doc] # / section / pct(esc6901(name)); entry points ResolveRefWithBase, ResolveParameterWithBase, ResolveResponseWithBase, ResolvePathItemWithBase",
 			"asserted: error iff nothing is designated; the result's JSON equals the designated sub-document member-wise (nested $ref intact); the typed root's JSON is unchanged",
@@ -221,6 +232,7 @@ func init() {
 		Quick:    Tier{Params: map[string]int{"ref_len": 2, "alpha_len": 4, "abs_tail": 2}},
 		Thorough: Tier{Params: map[string]int{"ref_len": 3, "alpha_len": 5, "abs_tail": 3, "hop_len": 4}},
 		Bounds: []string{
+			"two hops (vh_C12_twohops): 4 base / first-hop pairs (two with a target URL that has the referring URL as a string prefix), second reference of 1..hop_len symbolic bytes over the alphabet, served first document, refusing loader for the rest",
 			"vh_C12_locate: $ref strings of every length 0..ref_len with every byte unconstrained (256 values)",
 			"vh_C12_alphabet: $ref strings of length ref_len+1..alpha_len over the alphabet {. / % 2 5 F e # a space 0xC3 0xA9} (the segment material the property names: plain, dotted, ./.., escapes, non-ASCII, fragment)",
 			"vh_C12_absolute: one of five concrete scheme/authority prefixes (file:///, http://o.example/, https://o.example/d/, FILE:///, http://h.example/r/) followed by 0..abs_tail unconstrained bytes",
